@@ -13,13 +13,13 @@
 //!       source alpha to the declared depth.  JPEG / DXT: structure only.
 //! Signatures are built from (clause | version | encoding | mip | structural trigger), never from sizes or content.
 
-use image::{DynamicImage, Rgb, RgbImage, Rgba, RgbaImage};
+use image::{DynamicImage, GrayAlphaImage, GrayImage, ImageBuffer, Luma, LumaA, Rgb, Rgb32FImage, RgbImage, Rgba, Rgba32FImage, RgbaImage};
 use serde_json::{Value, json};
 use std::collections::HashSet;
 use vh_common::{Case, Rng, Run, trap};
 use wow_blp::convert::{AlphaBits, Blp2Format, BlpOldFormat, BlpTarget, DxtAlgorithm, FilterType, blp_to_image, image_to_blp};
 use wow_blp::encode::{encode_blp, encode_blp0};
-use wow_blp::parser::{parse_blp, parse_blp_with_externals, preloaded_mipmaps};
+use wow_blp::parser::{load_blp_from_buf, no_mipmaps, parse_blp, parse_blp_with_externals, preloaded_mipmaps};
 use wow_blp::types::{BlpContent, BlpImage};
 
 // ------------------------------------------------------------------ case space ----
@@ -162,7 +162,13 @@ struct Spec {
     filter: &'static str,
     algo: &'static str,
     origin: &'static str,
+    /// "auto": the generator's own Rgba8 / Rgb8 image; otherwise the DynamicImage variant the generated content is recast into
+    src: &'static str,
 }
+
+/// DynamicImage variants other than Rgb8 / Rgba8 (image_to_blp takes any variant and converts with the image crate's into_rgba8)
+const SRC_KINDS: &[&str] = &["Luma8", "LumaA8", "Luma16", "LumaA16", "Rgb16", "Rgba16", "Rgb32F", "Rgba32F"];
+const VARIANT_SIZES: &[(u32, u32)] = &[(1, 1), (2, 2), (3, 5), (5, 3), (7, 8), (8, 2), (16, 16), (17, 31), (9, 4), (4, 4), (33, 7), (1, 9), (6, 6), (32, 32), (13, 1)];
 
 fn random_size(rng: &mut Rng) -> (u32, u32) {
     match rng.below(12) {
@@ -213,14 +219,14 @@ fn build_specs(thorough: bool, seed: u64) -> Vec<Spec> {
         for &(w, h) in &sizes {
             for &content in CONTENTS {
                 for &tgt in &targets {
-                    v.push(Spec { w, h, content, tgt, mip: false, filter: "nearest", algo: "range", origin: "grid" });
+                    v.push(Spec { w, h, content, tgt, mip: false, filter: "nearest", algo: "range", origin: "grid", src: "auto" });
                     let rot = v.len() % filters.len();
                     for (fi, &f) in filters.iter().enumerate() {
                         // quick: the large images (slow) meet one filter per point, rotating
                         if !thorough && w * h >= 60000 && fi != rot {
                             continue;
                         }
-                        v.push(Spec { w, h, content, tgt, mip: true, filter: f, algo: "range", origin: "grid" });
+                        v.push(Spec { w, h, content, tgt, mip: true, filter: f, algo: "range", origin: "grid", src: "auto" });
                     }
                 }
             }
@@ -235,7 +241,7 @@ fn build_specs(thorough: bool, seed: u64) -> Vec<Spec> {
                     let k = (w + 3 * h) as usize + ti + seed as usize;
                     let content = CONTENTS[k % CONTENTS.len()];
                     let f = FILTERS5[(k / 5) % FILTERS5.len()];
-                    v.push(Spec { w, h, content, tgt, mip, filter: if mip { f } else { "nearest" }, algo: "range", origin: "small-exhaustive" });
+                    v.push(Spec { w, h, content, tgt, mip, filter: if mip { f } else { "nearest" }, algo: "range", origin: "small-exhaustive", src: "auto" });
                 }
             }
         }
@@ -250,7 +256,24 @@ fn build_specs(thorough: bool, seed: u64) -> Vec<Spec> {
         let mip = rng.chance(2, 3);
         let f = *rng.pick(FILTERS5);
         let algo = if w * h <= 64 * 64 { *rng.pick(&["range", "cluster", "iterative"]) } else { "range" };
-        v.push(Spec { w, h, content, tgt, mip, filter: if mip { f } else { "nearest" }, algo, origin: "random" });
+        v.push(Spec { w, h, content, tgt, mip, filter: if mip { f } else { "nearest" }, algo, origin: "random", src: "auto" });
+    }
+    // other DynamicImage variants as sources: variants x targets x mip on/off, size / content / filter rotating (appended after
+    // the older blocks so that their case indices stay what they were)
+    let reps = if thorough { 40usize } else { 3 };
+    for rep in 0..reps {
+        for (ki, &src) in SRC_KINDS.iter().enumerate() {
+            for (ti, &tgt) in targets.iter().enumerate() {
+                for mip in [false, true] {
+                    let k = rep * 7 + ki * 3 + ti + mip as usize + seed as usize;
+                    let (w, h) = if thorough && rep >= 15 { random_size(&mut rng) } else { VARIANT_SIZES[k % VARIANT_SIZES.len()] };
+                    let (w, h) = (w.min(300), h.min(300));
+                    let content = CONTENTS[(k / 3) % CONTENTS.len()];
+                    let f = FILTERS5[(k / 2) % FILTERS5.len()];
+                    v.push(Spec { w, h, content, tgt, mip, filter: if mip { f } else { "nearest" }, algo: "range", origin: "source-variant", src });
+                }
+            }
+        }
     }
     v
 }
@@ -344,6 +367,77 @@ fn more_than_256_colours(img: &RgbaImage) -> bool {
         }
     }
     false
+}
+
+/// The generated RGBA content recast into another DynamicImage variant. Luma takes the red channel; 16 bit samples are the 8 bit value
+/// spread over the range (v * 257), with or without a jitter that makes the conversion back to 8 bits round; float samples are
+/// v / 255, one image in three stretched to [-0.25, 1.25] (the conversion to 8 bits clamps). The source pixels the laws refer
+/// to are the image crate's own to_rgba8() view of the result.
+fn to_variant(rng: &mut Rng, base: &RgbaImage, kind: &str) -> DynamicImage {
+    let (w, h) = base.dimensions();
+    let jitter = rng.bool();
+    let stretch = rng.below(3) == 0;
+    fn s16(rng: &mut Rng, jitter: bool, v: u8) -> u16 {
+        let j = if jitter { rng.range(0, 256) as i32 - 128 } else { 0 };
+        (v as i32 * 257 + j).clamp(0, 65535) as u16
+    }
+    let f = |v: u8| -> f32 {
+        let x = v as f32 / 255.0;
+        if stretch { x * 1.5 - 0.25 } else { x }
+    };
+    match kind {
+        "Luma8" => DynamicImage::ImageLuma8(GrayImage::from_fn(w, h, |x, y| Luma([base.get_pixel(x, y)[0]]))),
+        "LumaA8" => DynamicImage::ImageLumaA8(GrayAlphaImage::from_fn(w, h, |x, y| { let p = base.get_pixel(x, y); LumaA([p[0], p[3]]) })),
+        "Luma16" => {
+            let mut im: ImageBuffer<Luma<u16>, Vec<u16>> = ImageBuffer::new(w, h);
+            for (x, y, q) in im.enumerate_pixels_mut() {
+                *q = Luma([s16(rng, jitter, base.get_pixel(x, y)[0])]);
+            }
+            DynamicImage::ImageLuma16(im)
+        }
+        "LumaA16" => {
+            let mut im: ImageBuffer<LumaA<u16>, Vec<u16>> = ImageBuffer::new(w, h);
+            for (x, y, q) in im.enumerate_pixels_mut() {
+                let p = base.get_pixel(x, y);
+                *q = LumaA([s16(rng, jitter, p[0]), s16(rng, jitter, p[3])]);
+            }
+            DynamicImage::ImageLumaA16(im)
+        }
+        "Rgb16" => {
+            let mut im: ImageBuffer<Rgb<u16>, Vec<u16>> = ImageBuffer::new(w, h);
+            for (x, y, q) in im.enumerate_pixels_mut() {
+                let p = base.get_pixel(x, y);
+                *q = Rgb([s16(rng, jitter, p[0]), s16(rng, jitter, p[1]), s16(rng, jitter, p[2])]);
+            }
+            DynamicImage::ImageRgb16(im)
+        }
+        "Rgba16" => {
+            let mut im: ImageBuffer<Rgba<u16>, Vec<u16>> = ImageBuffer::new(w, h);
+            for (x, y, q) in im.enumerate_pixels_mut() {
+                let p = base.get_pixel(x, y);
+                *q = Rgba([s16(rng, jitter, p[0]), s16(rng, jitter, p[1]), s16(rng, jitter, p[2]), s16(rng, jitter, p[3])]);
+            }
+            DynamicImage::ImageRgba16(im)
+        }
+        "Rgb32F" => DynamicImage::ImageRgb32F(Rgb32FImage::from_fn(w, h, |x, y| { let p = base.get_pixel(x, y); Rgb([f(p[0]), f(p[1]), f(p[2])]) })),
+        _ => DynamicImage::ImageRgba32F(Rgba32FImage::from_fn(w, h, |x, y| { let p = base.get_pixel(x, y); Rgba([f(p[0]), f(p[1]), f(p[2]), f(p[3])]) })),
+    }
+}
+
+fn variant_name(img: &DynamicImage) -> &'static str {
+    match img {
+        DynamicImage::ImageLuma8(_) => "Luma8",
+        DynamicImage::ImageLumaA8(_) => "LumaA8",
+        DynamicImage::ImageRgb8(_) => "Rgb8",
+        DynamicImage::ImageRgba8(_) => "Rgba8",
+        DynamicImage::ImageLuma16(_) => "Luma16",
+        DynamicImage::ImageLumaA16(_) => "LumaA16",
+        DynamicImage::ImageRgb16(_) => "Rgb16",
+        DynamicImage::ImageRgba16(_) => "Rgba16",
+        DynamicImage::ImageRgb32F(_) => "Rgb32F",
+        DynamicImage::ImageRgba32F(_) => "Rgba32F",
+        _ => "other",
+    }
 }
 
 // ------------------------------------------------------------------ expectations ----
@@ -685,9 +779,17 @@ static SCRATCH: std::sync::OnceLock<std::path::PathBuf> = std::sync::OnceLock::n
 fn run_case(c: &mut Case, spec: &Spec, rng: &mut Rng) {
     let t = spec.tgt;
     let tname = t.name();
-    let (img, _variant) = gen_image(rng, spec.w, spec.h, spec.content);
+    let (mut img, _variant) = gen_image(rng, spec.w, spec.h, spec.content);
+    if spec.src != "auto" {
+        img = to_variant(rng, &img.to_rgba8(), spec.src);
+    }
+    // the source pixels: the image crate's own RGBA8 view of the source image (exact for Rgb8 / Rgba8 sources)
     let src = img.to_rgba8();
     c.count("images_generated", 1);
+    c.count(&format!("source_variant|{}", variant_name(&img)), 1);
+    if spec.src != "auto" {
+        c.count("source_variant_cases", 1);
+    }
     if more_than_256_colours(&src) {
         c.count("images_with_more_than_256_colours", 1);
     }
@@ -872,6 +974,7 @@ fn run_case(c: &mut Case, spec: &Spec, rng: &mut Rng) {
         Ok(Ok(y)) => y,
     };
     c.count("parsed_ok", 1);
+    entry_point_legs(c, &cx, &bytes, &y);
     // ---- the same texture through the file interface, on a path that held a larger texture before (its files stay behind:
     // a longer main file, external level files beyond the ones this texture has), and - BLP0 - through a callback that can
     // serve more levels than the texture has: the same structure as the in-memory parse
@@ -1024,6 +1127,86 @@ fn run_case(c: &mut Case, spec: &Spec, rng: &mut Rng) {
     }
     if spec.mip && y_levels > 0 && y_levels == chain.len() {
         c.count("chains_ending_at_1x1", (chain[y_levels - 1] == (1, 1)) as u64);
+    }
+
+    // ---- BlpImage::mipmap_info(): the library's own summary of the chain - one entry per stored level, numbered in order, with
+    // the halved dimensions, their product, and the stored size of the level (as held in the parsed structure and as the file's
+    // table / the external file says)
+    match trap(|| y.mipmap_info()) {
+        Err(p) => c.violate(format!("panic|mipmap_info|{}|{}|{}", t.ver_name(), t.enc_name(), p.sig()), format!("mipmap_info panicked: {}", p.msg), json!({"func": p.func})),
+        Ok(info) => {
+            c.count("mipmap_info_views", 1);
+            let ysz = content_level_sizes(&y.content);
+            if info.len() != y.image_count() {
+                c.violate(cx.sig("mipmap-info", "entry-count"), format!("mipmap_info() has {} entries for {} stored levels", info.len(), y.image_count()), json!({"entries": info.len(), "levels": y.image_count()}));
+            }
+            for (i, m) in info.iter().enumerate() {
+                c.count("mipmap_info_levels_checked", 1);
+                let located: Option<u64> = if t.ver == 0 { externals.get(i).map(|e| e.len() as u64) } else if table_levels.len() == y.image_count() { table_levels.get(i).map(|p| p.1) } else { None };
+                if located.is_some() {
+                    c.count("mipmap_info_sizes_compared_with_locator", 1);
+                }
+                let bad = if m.level != i {
+                    Some("level-number")
+                } else if chain.get(i).is_some_and(|&d| d != (m.width, m.height)) {
+                    Some("dimensions")
+                } else if m.pixel_count as u64 != m.width as u64 * m.height as u64 {
+                    Some("pixel-count")
+                } else if ysz.get(i) != Some(&(m.data_size as u64)) {
+                    Some("data-size-ne-stored-level")
+                } else if located.is_some_and(|l| l != m.data_size as u64) {
+                    Some("data-size-ne-locator")
+                } else {
+                    None
+                };
+                if let Some(what) = bad {
+                    c.violate(
+                        cx.sig("mipmap-info", what),
+                        format!("mipmap_info()[{i}] = level {} {}x{} pixels {} size {}; the level is {:?}, stores {:?} bytes, located size {:?}", m.level, m.width, m.height, m.pixel_count, m.data_size, chain.get(i), ysz.get(i), located),
+                        json!({"entry": i, "level": m.level, "width": m.width, "height": m.height, "pixel_count": m.pixel_count, "data_size": m.data_size}),
+                    );
+                    break;
+                }
+            }
+        }
+    }
+
+    // ---- BlpJpeg::full_jpeg(i): shared header + level i is a complete JPEG stream of the level's dimensions; nothing beyond the chain
+    if let (Enc::Jpeg(_), Some(j)) = (t.enc, y.content_jpeg()) {
+        for (i, &(a, b)) in chain.iter().enumerate().take(y.image_count()) {
+            match trap(|| j.full_jpeg(i)) {
+                Err(p) => {
+                    c.violate(format!("panic|full_jpeg|{}|{}|{}", t.ver_name(), t.enc_name(), p.sig()), format!("full_jpeg({i}) panicked: {}", p.msg), json!({"func": p.func}));
+                    break;
+                }
+                Ok(None) => {
+                    c.violate(cx.sig("full-jpeg", "none-for-a-stored-level"), format!("full_jpeg({i}) is None although {} levels are stored", y.image_count()), json!({"level": i}));
+                    break;
+                }
+                Ok(Some(buf)) => {
+                    c.count("full_jpeg_levels", 1);
+                    match trap(|| image::ImageReader::with_format(std::io::Cursor::new(&buf), image::ImageFormat::Jpeg).decode().map(|im| (im.width(), im.height())).map_err(|e| format!("{e}"))) {
+                        Ok(Ok(dims)) if dims == (a, b) => c.count("full_jpeg_levels_decoded_to_level_dimensions", 1),
+                        Ok(Ok(dims)) => {
+                            c.violate(cx.sig("full-jpeg", "decoded-dimensions"), format!("full_jpeg({i}) decodes to {}x{}, the level is {a}x{b}", dims.0, dims.1), json!({"level": i}));
+                            break;
+                        }
+                        Ok(Err(e)) => {
+                            c.violate(cx.sig("full-jpeg", "does-not-decode"), format!("full_jpeg({i}) ({} bytes) is not a decodable JPEG stream: {e}", buf.len()), json!({"level": i, "err": e}));
+                            break;
+                        }
+                        Err(p) => {
+                            c.violate(cx.sig("full-jpeg", "decoder-panics"), format!("decoding full_jpeg({i}) panicked: {}", p.msg), json!({"level": i, "func": p.func}));
+                            break;
+                        }
+                    }
+                }
+            }
+        }
+        c.count("full_jpeg_beyond_last_level_probed", 1);
+        if j.full_jpeg(y.image_count()).is_some() {
+            c.violate(cx.sig("full-jpeg", "some-beyond-the-last-level"), format!("full_jpeg({}) returns data although only {} levels are stored", y.image_count(), y.image_count()), json!({}));
+        }
     }
 
     // ---- (c) continued: the table describes exactly the stored levels, and points at their bytes
@@ -1179,6 +1362,84 @@ fn run_case(c: &mut Case, spec: &Spec, rng: &mut Rng) {
     }
 }
 
+/// The other ways into the parser: they read the same bytes, so they return what parse_blp returns.
+///  * BLP1 / BLP2 (everything is inside the file): load_blp_from_buf, parse_blp_with_externals with the no_mipmaps helper and
+///    with a callback that offers unrelated external files all yield the structure parse_blp yields.
+///  * BLP0 (every level, level 0 included, is an external file): without the external files parse_blp,
+///    parse_blp_with_externals(no_mipmaps) and load_blp_from_buf meet the same situation, so they agree: all refuse, or all
+///    return the same structure.
+fn entry_point_legs(c: &mut Case, cx: &Ctx, bytes: &[u8], y: &BlpImage) {
+    let t = cx.spec.tgt;
+    type R = Result<Result<BlpImage, String>, vh_common::PanicInfo>;
+    let junk: Vec<Vec<u8>> = vec![vec![0xEE; 5], vec![], vec![0x11; 70000]];
+    let via_buf: R = trap(|| load_blp_from_buf(bytes).map_err(|e| format!("{e}")));
+    let via_none: R = trap(|| parse_blp_with_externals(bytes, no_mipmaps).map_err(|e| err_kind(&format!("{e:?}"))));
+    let mut panicked = false;
+    for (name, r) in [("load_blp_from_buf", &via_buf), ("parse_blp_with_externals+no_mipmaps", &via_none)] {
+        if let Err(p) = r {
+            c.violate(format!("panic|{name}|{}|{}|{}", t.ver_name(), t.enc_name(), p.sig()), format!("{name} panicked on the encoder's output: {}", p.msg), json!({"func": p.func}));
+            panicked = true;
+        }
+    }
+    if panicked {
+        return;
+    }
+    let (via_buf, via_none) = (via_buf.unwrap(), via_none.unwrap());
+    if t.ver != 0 {
+        for (name, r) in [("load_blp_from_buf", &via_buf), ("parse_blp_with_externals+no_mipmaps", &via_none)] {
+            c.count(&format!("entry_point_compared|{name}"), 1);
+            match r {
+                Ok(y2) if y2 == y => c.count(&format!("entry_point_equal_parse_blp|{name}"), 1),
+                Ok(y2) => {
+                    let (kind, text) = first_difference(y, y2);
+                    c.violate(cx.sig("entry-points-disagree", &format!("{name}|{kind}")), format!("{name} returns a structure different from parse_blp on the same bytes: {text}"), json!({"entry": name, "difference": kind}));
+                }
+                Err(e) => c.violate(cx.sig("entry-points-disagree", &format!("{name}|refuses-what-parse_blp-accepts")), format!("{name} refuses bytes parse_blp accepts: {e}"), json!({"entry": name, "err": e})),
+            }
+        }
+        // a callback offering external files is of no concern to a file that holds all its levels
+        c.count("entry_point_compared|parse_blp_with_externals+unrelated-externals", 1);
+        match trap(|| parse_blp_with_externals(bytes, |i| preloaded_mipmaps(&junk, i)).map_err(|e| format!("{e}"))) {
+            Ok(Ok(y2)) if &y2 == y => c.count("entry_point_equal_parse_blp|parse_blp_with_externals+unrelated-externals", 1),
+            Ok(Ok(y2)) => {
+                let (kind, text) = first_difference(y, &y2);
+                c.violate(cx.sig("entry-points-disagree", &format!("externals-offered-to-internal-file|{kind}")), format!("offering external files to a {} file changes the parsed structure: {text}", t.ver_name()), json!({"difference": kind}));
+            }
+            Ok(Err(e)) => c.violate(cx.sig("entry-points-disagree", "externals-offered-to-internal-file|refused"), format!("offering external files to a {} file makes the parse fail: {e}", t.ver_name()), json!({"err": e})),
+            Err(p) => c.violate(format!("panic|parse_blp_with_externals|{}|{}|{}", t.ver_name(), t.enc_name(), p.sig()), p.msg.clone(), json!({"func": p.func})),
+        }
+    } else {
+        let via_plain = match trap(|| parse_blp(bytes).map_err(|e| err_kind(&format!("{e:?}")))) {
+            Ok(r) => r,
+            Err(p) => {
+                c.violate(format!("panic|parse_blp|{}|{}|{}", t.ver_name(), t.enc_name(), p.sig()), format!("parse_blp panicked on a BLP0 main file: {}", p.msg), json!({"func": p.func}));
+                return;
+            }
+        };
+        c.count("blp0_parsed_without_externals_by_three_entry_points", 1);
+        match (&via_plain, &via_none, &via_buf) {
+            (Err(a), Err(b), Err(_)) => {
+                if a != b {
+                    c.violate(cx.sig("entry-points-disagree", "blp0-without-externals|error-kinds"), format!("without external files parse_blp fails with {a}, parse_blp_with_externals(no_mipmaps) with {b}"), json!({"parse_blp": a, "with_no_mipmaps": b}));
+                } else {
+                    c.count(&format!("blp0_without_externals_refused_by_all|{a}"), 1);
+                }
+            }
+            (Ok(a), Ok(b), Ok(d)) => {
+                if a != b || a != d {
+                    c.violate(cx.sig("entry-points-disagree", "blp0-without-externals|structures"), "without external files the three entry points return different structures".to_string(), json!({}));
+                } else {
+                    c.count("blp0_without_externals_accepted_by_all", 1);
+                }
+            }
+            _ => {
+                let how = format!("parse_blp={} no_mipmaps={} load_blp_from_buf={}", if via_plain.is_ok() { "ok" } else { "err" }, if via_none.is_ok() { "ok" } else { "err" }, if via_buf.is_ok() { "ok" } else { "err" });
+                c.violate(cx.sig("entry-points-disagree", "blp0-without-externals|ok-vs-err"), format!("without external files the entry points disagree: {how}"), json!({"outcomes": how}));
+            }
+        }
+    }
+}
+
 /// Innermost variant name of the parser error (from its Debug form; Context wrappers skipped) — no numbers, no paths.
 fn err_kind(dbg: &str) -> String {
     for v in ["MissingImage", "OutOfBounds", "UnexpectedEof", "ExternalMipmap", "WrongMagic", "Blp2NoExternalMips", "Blp2UnknownCompression", "Blp2UnknownAlphaType", "UnknownAlphaType", "Blp2UnexpectedJpegCompression"] {
@@ -1235,8 +1496,11 @@ fn main() {
             continue;
         }
         let mut rng = run.rng(idx, 0);
-        let class = format!("{}|mip{}|{}x{}|{}|{}", spec.tgt.name(), spec.mip as u8, spec.w, spec.h, spec.content, spec.filter);
-        let desc: Value = json!({"w": spec.w, "h": spec.h, "content": spec.content, "target": spec.tgt.name(), "mipmaps": spec.mip, "filter": spec.filter, "dxt_algorithm": spec.algo, "from": spec.origin});
+        let mut class = format!("{}|mip{}|{}x{}|{}|{}", spec.tgt.name(), spec.mip as u8, spec.w, spec.h, spec.content, spec.filter);
+        if spec.src != "auto" {
+            class.push_str(&format!("|src={}", spec.src));
+        }
+        let desc: Value = json!({"w": spec.w, "h": spec.h, "content": spec.content, "target": spec.tgt.name(), "mipmaps": spec.mip, "filter": spec.filter, "dxt_algorithm": spec.algo, "from": spec.origin, "source_image": spec.src});
         classes.insert(format!("{},{},a{}", spec.w % 8, spec.h % 8, spec.tgt.alpha_depth_class()));
         run.case(idx, &class, desc, |c| run_case(c, spec, &mut rng));
     }
